@@ -26,6 +26,14 @@ impl Reader {
         ensures r matches Ok(k) ==> k <= old(self)@.len() && (k == 0 ==> old(self)@.len() == 0)
                     && final(buf)@ == old(buf)@ + old(self)@.take(k as int) && final(self)@ == old(self)@.skip(k as int),
     { unimplemented!() }
+    // AsyncReadExt::read: fills SOME prefix of the buffer with the next bytes of the stream (0 only at end of stream or
+    // for an empty buffer); the rest of the buffer keeps its old content
+    #[verifier::external_body]
+    pub fn read(&mut self, buf: &mut [u8]) -> (r: IoResult<usize>)
+        ensures final(buf)@.len() == old(buf)@.len(),
+                r matches Ok(k) ==> k <= old(self)@.len() && k <= old(buf)@.len() && (k == 0 ==> (old(self)@.len() == 0 || old(buf)@.len() == 0))
+                    && final(buf)@ == old(self)@.take(k as int) + old(buf)@.skip(k as int) && final(self)@ == old(self)@.skip(k as int),
+    { unimplemented!() }
     #[verifier::external_body]
     pub fn read_u16(&mut self) -> (r: IoResult<u16>)
         ensures old(self)@.len() >= 2 ==> r.is_ok() && r->Ok_0 == be_u16_val(old(self)@) && final(self)@ == old(self)@.skip(2),
@@ -44,6 +52,9 @@ impl Writer {
         ensures r.is_ok() ==> final(self)@ == old(self)@ + be32(x) { unimplemented!() }
     #[verifier::external_body] pub fn write_all<S: AsBytes + ?Sized>(&mut self, s: &S) -> (r: IoResult<()>)
         ensures r.is_ok() ==> final(self)@ == old(self)@ + s.bv() { unimplemented!() }
+    // AsyncWriteExt::write: hands over SOME prefix of the buffer (possibly shorter than the buffer) and says how much
+    #[verifier::external_body] pub fn write<S: AsBytes + ?Sized>(&mut self, s: &S) -> (r: IoResult<usize>)
+        ensures r matches Ok(n) ==> n <= s.bv().len() && final(self)@ == old(self)@ + s.bv().take(n as int) { unimplemented!() }
     #[verifier::external_body] pub fn flush(&mut self) -> (r: IoResult<()>)
         ensures final(self)@ == old(self)@ { unimplemented!() }
 }
